@@ -373,7 +373,7 @@ counting! {
 }
 
 counting! {
-    // @h props=C04,C13,C16 tier=quick group=step allow=overflow|capacity_overflow|raw_vec|handle_error must_fail=. note=reserve_with_unrepresentable_total_must_not_return(shared_form)
+    // @h props=C04,C13,C16 tier=quick group=step allow=overflow|capacity_overflow|raw_vec|handle_error|core::option::expect_failed must_fail=. note=reserve_with_unrepresentable_total_must_not_return(shared_form)
     pub fn arc_reserve_overflow() {
         unsafe {
             let (mut m, g) = st_arc(false);
